@@ -743,54 +743,132 @@ func pc2c(c *Ctx, r *Report, ksSide bool) {
 		fns = append(fns, f)
 	}
 	sort.Slice(fns, func(i, j int) bool { return fns[i].Name() < fns[j].Name() })
-	for _, fn := range fns {
-		name := c.FuncName(fn)
+	// a release may sit in an unexported helper the consumer calls (extract-method): the helper's releases are checked
+	// too, and a guard counts whether it dominates the release inside the helper or the helper's call site in the consumer
+	type site struct {
+		in    ssa.Instruction   // the Recycle call
+		chain []ssa.Instruction // call sites leading to it, innermost first
+		owner *ssa.Function     // the listed consumer
+	}
+	var sites []site
+	var collect func(owner, fn *ssa.Function, chain []ssa.Instruction, depth int, seen map[*ssa.Function]bool)
+	collect = func(owner, fn *ssa.Function, chain []ssa.Instruction, depth int, seen map[*ssa.Function]bool) {
 		for _, in := range callsIn(fn, func(cc *ssa.CallCommon) bool { return callsIfaceMethod(cc, pf.recycle) }) {
-			ord := ordinalOfIface(in, pf.recycle)
-			// transaction side
-			txOK := false
-			for _, ci := range callsIn(fn, func(cc *ssa.CallCommon) bool { return callsFunc(cc, pf.isInTx) }) {
-				if dominatedByCond(in, ci.(*ssa.Call), false) {
-					txOK = true
+			sites = append(sites, site{in, chain, owner})
+		}
+		if depth == 0 {
+			return
+		}
+		allInstrs(fn, func(x ssa.Instruction) {
+			cc := callCommon(x)
+			if cc == nil {
+				return
+			}
+			h := staticCallee(cc)
+			if h == nil || seen[h] || !c.InModule(h) || len(h.Blocks) == 0 || h.Object() == nil || h.Object().Exported() || h.Pkg != fn.Pkg {
+				return
+			}
+			if _, listed := pf.consumers[h]; listed {
+				return
+			}
+			if _, listed := pf.mapConsumers[h]; listed {
+				return
+			}
+			if h == pf.recycleTx || h == pf.clearKs || h == pf.isInTx || h == pf.isKs {
+				return
+			}
+			// only helpers that are handed a connection (or the map of them)
+			takes := false
+			for _, a := range cc.Args {
+				if isPCType(pf, a.Type()) {
+					takes = true
+				}
+				if m, ok := a.Type().Underlying().(*types.Map); ok && isPCType(pf, m.Elem()) {
+					takes = true
 				}
 			}
-			why := "dominated by !isInTransaction()"
-			if !txOK {
-				for _, ci := range callsIn(fn, func(cc *ssa.CallCommon) bool { return callsFunc(cc, pf.recycleTx) }) {
-					if instrDominates(ci, in) {
-						txOK = true
-						why = "txConns was replaced (recycleTx) before the release"
+			if !takes {
+				return
+			}
+			seen[h] = true
+			collect(owner, h, append([]ssa.Instruction{x}, chain...), depth-1, seen)
+		})
+	}
+	for _, fn := range fns {
+		collect(fn, fn, nil, 2, map[*ssa.Function]bool{fn: true})
+	}
+	// guardedAt: test holds for the instruction in its own function, or for an enclosing call site
+	guardedAt := func(in ssa.Instruction, chain []ssa.Instruction, test func(at ssa.Instruction) bool) bool {
+		if test(in) {
+			return true
+		}
+		for _, cs := range chain {
+			if test(cs) {
+				return true
+			}
+		}
+		return false
+	}
+	for _, st := range sites {
+		in := st.in
+		name := c.FuncName(st.owner)
+		ord := ordinalOfIface(in, pf.recycle)
+		if in.Parent() != st.owner {
+			ord = in.Parent().Name() + ":" + ord
+		}
+		why := "dominated by !isInTransaction()"
+		txOK := guardedAt(in, st.chain, func(at ssa.Instruction) bool {
+			for _, ci := range callsIn(at.Parent(), func(cc *ssa.CallCommon) bool { return callsFunc(cc, pf.isInTx) }) {
+				if dominatedByCond(at, ci.(*ssa.Call), false) {
+					return true
+				}
+			}
+			return false
+		})
+		if !txOK {
+			txOK = guardedAt(in, st.chain, func(at ssa.Instruction) bool {
+				for _, ci := range callsIn(at.Parent(), func(cc *ssa.CallCommon) bool { return callsFunc(cc, pf.recycleTx) }) {
+					if instrDominates(ci, at) {
+						return true
 					}
 				}
-			}
-			if txOK {
-				r.ok(rule, name, "recycle@"+ord+":tx-side", c.Pos(in.Pos()), why)
-			} else {
-				r.viol(rule, name, "recycle@"+ord+":tx-side", c.Pos(in.Pos()), "the consumer can release a connection that is still pinned in txConns")
-			}
-			if !ksSide {
-				continue
-			}
-			ksOK := false
-			for _, ci := range callsIn(fn, func(cc *ssa.CallCommon) bool { return callsFunc(cc, pf.isKs) }) {
-				if dominatedByCond(in, ci.(*ssa.Call), false) {
-					ksOK = true
+				return false
+			})
+			why = "txConns was replaced (recycleTx) before the release"
+		}
+		if txOK {
+			r.ok(rule, name, "recycle@"+ord+":tx-side", c.Pos(in.Pos()), why)
+		} else {
+			r.viol(rule, name, "recycle@"+ord+":tx-side", c.Pos(in.Pos()), "the consumer can release a connection that is still pinned in txConns")
+		}
+		if !ksSide {
+			continue
+		}
+		why = "dominated by !IsKeepSession()"
+		ksOK := guardedAt(in, st.chain, func(at ssa.Instruction) bool {
+			for _, ci := range callsIn(at.Parent(), func(cc *ssa.CallCommon) bool { return callsFunc(cc, pf.isKs) }) {
+				if dominatedByCond(at, ci.(*ssa.Call), false) {
+					return true
 				}
 			}
-			why = "dominated by !IsKeepSession()"
-			if !ksOK {
-				allInstrs(fn, func(x ssa.Instruction) {
-					if st, ok := x.(*ssa.Store); ok && fieldOfAddr(st.Addr) == pf.ksF && instrDominates(x, in) {
-						ksOK = true
-						why = "ksConns was replaced before the release"
+			return false
+		})
+		if !ksOK {
+			ksOK = guardedAt(in, st.chain, func(at ssa.Instruction) bool {
+				found := false
+				allInstrs(at.Parent(), func(x ssa.Instruction) {
+					if st2, ok := x.(*ssa.Store); ok && fieldOfAddr(st2.Addr) == pf.ksF && instrDominates(x, at) {
+						found = true
 					}
 				})
-			}
-			if ksOK {
-				r.ok(rule, name, "recycle@"+ord+":ks-side", c.Pos(in.Pos()), why)
-			} else {
-				r.viol(rule, name, "recycle@"+ord+":ks-side", c.Pos(in.Pos()), "the consumer can release a connection that is still pinned in ksConns (keep-session): it stays pinned, is used again and released again after every later statement")
-			}
+				return found
+			})
+			why = "ksConns was replaced before the release"
+		}
+		if ksOK {
+			r.ok(rule, name, "recycle@"+ord+":ks-side", c.Pos(in.Pos()), why)
+		} else {
+			r.viol(rule, name, "recycle@"+ord+":ks-side", c.Pos(in.Pos()), "the consumer can release a connection that is still pinned in ksConns (keep-session): it stays pinned, is used again and released again after every later statement")
 		}
 	}
 }
@@ -1017,7 +1095,7 @@ func ruleC18a(c *Ctx, r *Report) {
 			}
 			if pf.sourceKind(cc) == "raw" {
 				cons := "source:" + calleeLabel(cc) + "@" + ordinalByLabel(fn, in, calleeLabel(cc))
-				if why, ok := allowedSrc[fn]; ok {
+				if why, ok := allowedVia(c, allowedSrc, fn); ok {
 					r.ok(rule, name, cons, c.Pos(in.Pos()), why)
 				} else {
 					r.viol(rule, name, cons, c.Pos(in.Pos()), "a backend connection is taken straight from a slice/pool outside the acquisition layer: it bypasses transaction and keep-session pinning")
@@ -1025,7 +1103,7 @@ func ruleC18a(c *Ctx, r *Report) {
 			}
 			if callsIfaceMethod(cc, exec) || callsIfaceMethod(cc, fl) {
 				cons := "exec:" + calleeLabel(cc) + "@" + ordinalOfIface(in, exec, fl)
-				if why, ok := allowedExec[fn]; ok {
+				if why, ok := allowedVia(c, allowedExec, fn); ok {
 					r.ok(rule, name, cons, c.Pos(in.Pos()), why)
 				} else {
 					r.viol(rule, name, cons, c.Pos(in.Pos()), "SQL is sent to a pooled connection outside the listed execution sites")
@@ -1299,7 +1377,7 @@ func ruleC23b(c *Ctx, r *Report) {
 				return
 			}
 			name := c.FuncName(fn)
-			if why, ok := allowed[fn]; ok {
+			if why, ok := allowedVia(c, allowed, fn); ok {
 				r.ok(rule, name, "write:ksConns:"+what, c.Pos(in.Pos()), why)
 			} else {
 				r.viol(rule, name, "write:ksConns:"+what, c.Pos(in.Pos()), "the keep-session map is modified outside the listed functions: a client can lose (or change) its pinned backend connection")
@@ -1631,4 +1709,9 @@ func ruleC18d(c *Ctx, r *Report) {
 	if n == 0 {
 		r.undecided(rule, name, "source", c.Pos(fn.Pos()), "no raw source")
 	}
+}
+
+
+func isPCType(pf *pcFacts, t types.Type) bool {
+	return types.Identical(t, pf.pcType) || (namedOf(t) != nil && namedOf(t) == namedOf(pf.pcType))
 }
